@@ -17,7 +17,7 @@ From BT Require Import Base.Util Base.Float Model.RTree Model.BBIFile Model.BigW
   Proofs.PipelineInv Proofs.PipelineThms Proofs.PipelineConv Proofs.PipelineLanes.
 From BT Require Model.TempBuf Model.BigBedWrite Proofs.BedZoomFit Proofs.PipelineBed.
 From BT Require Import Model.PipelineConc Proofs.PipelineRefine Proofs.PipelineLanesProgress
-  Model.PipelineZoom Proofs.PipelineZoom Proofs.PipelineZoomProgress.
+  Model.PipelineZoom Proofs.PipelineZoom Proofs.PipelineZoomProgress Model.PipelineSeq Proofs.PipelineSeq.
 
 (* FIFO order.  In every reachable state, for every completion order of the encode tasks, what the
    write task of chromosome k has written, followed by what is queued, followed by what is not yet
@@ -296,6 +296,29 @@ Theorem C11_lanes_waits : forall g Ps Sss K sched, g_fifo g = true -> (1 <= g_ca
 Proof. exact lanes_waits. Qed.
 Print Assumptions C11_lanes_waits.
 
+(* The producer as it is in the code: ONE task per chromosome that serves the lanes one after the other
+   (Model/PipelineSeq.v: [ords] k is the order in which producer k submits to the lanes - any interleaving of
+   the lanes' section lists; while it waits for room in one lane's channel it sends nothing to the others).
+   The machine is the lanes machine with fewer producer steps (every run of it is a run of the lanes machine,
+   so C11_lanes_splice holds of it), and it has no deadlock either, and every prefix can be completed. *)
+Theorem C11_seq_lanes_refines : forall g Ps Sss ords sched,
+  exists sched', q_l (qrun g sched (qinit Ps Sss ords)) = lrun g sched' (linit Ps Sss).
+Proof. exact seq_lanes_refines. Qed.
+Print Assumptions C11_seq_lanes_refines.
+
+Theorem C11_seq_lanes_progress : forall g Ps Sss K ords sched, g_fifo g = true -> (1 <= g_cap g)%nat -> (1 <= g_win g)%nat ->
+  length Ps = length Sss -> (1 <= length Sss)%nat -> Forall (fun Ss => length Ss = K) Sss -> ord_ok Sss ords ->
+  let s := qrun g sched (qinit Ps Sss ords) in
+  qterminal s = false -> exists t s', qstep g t s = Some s'.
+Proof. exact seq_lanes_progress. Qed.
+Print Assumptions C11_seq_lanes_progress.
+
+Theorem C11_seq_lanes_completion : forall g Ps Sss K ords sched, g_fifo g = true -> (1 <= g_cap g)%nat -> (1 <= g_win g)%nat ->
+  length Ps = length Sss -> (1 <= length Sss)%nat -> Forall (fun Ss => length Ss = K) Sss -> ord_ok Sss ords ->
+  exists more, qterminal (qrun g (sched ++ more) (qinit Ps Sss ords)) = true.
+Proof. exact seq_lanes_completion. Qed.
+Print Assumptions C11_seq_lanes_completion.
+
 (* ---------------------------------------------------------------- the second pass: write_zoom_vals with its final assembly
    Model/PipelineZoom.v: L zoom levels x K chromosomes; per level one splice task of its own (it receives a
    chromosome when the main thread ADVANCES it) whose destination is the level's outer staging writer; after
@@ -564,4 +587,21 @@ Example C11_example_zoom_bigwig_hyp :
     map (fun z => length (zl_secs z)) zooms = [2%nat; 2%nat].
 Proof.
   eexists. eexists. eexists. eexists. eexists. split; [vm_compute; reflexivity|]. vm_compute. split; reflexivity.
+Qed.
+
+(* sequential producers on the two lanes above: producer 0 submits data, zoom, data; producer 1 zoom, data.  With capacity 1
+   producer 0 is blocked on the DATA lane (its second data section) while nothing of chromosome 0 has been written: a
+   reachable non-terminal state; and a complete round-robin run *)
+Definition ex_ords : list (list nat) := [[0; 1; 0]; [1; 0]]%nat.
+Example C11_example_seq_lanes :
+  ord_ok ex_lanes ex_ords /\
+  (let s := qrun (mkg 1 5 true) [QMain; QMain; QProd 0; QProd 0; QProd 0 (* data channel full: stutters *); QProd 1; QSplice]
+                 (qinit [[100]; [200]] ex_lanes ex_ords) in
+   qterminal s = false /\ q_ord s = [[0]; [0]]%nat) /\
+  (let s := qrun (mkg 1 5 true) (qrounds 20 (all_qtasks 2 2 1)) (qinit [[100]; [200]] ex_lanes ex_ords) in
+   qterminal s = true /\ l_files (q_l s) = [[100; 1; 2; 3; 4]; [200; 50; 51; 52]]).
+Proof.
+  split; [|vm_compute; repeat split].
+  split; [repeat constructor|].
+  intros l k Hl. destruct l as [|[|l]]; [| |cbn in Hl; lia]; destruct k as [|[|k]]; try reflexivity; destruct k; reflexivity.
 Qed.
